@@ -37,6 +37,9 @@ var c05classes = []c05class{
 	// link of that name: either the table is refused, or the target is that read-only mount (never the program's link)
 	{"bind-ro-file-onto-planted-symlink-in-rw-bind", "file", false},
 	{"bind-ro-dir-onto-planted-symlink-in-rw-bind", "dir", false},
+	// the source lies on a host mount with shared propagation, and once the sandbox is set up the host mounts another
+	// file system below the source: the sandbox must keep seeing what was configured (the directory as it was), no new mount
+	{"bind-ro-dir-from-shared-mount+host-mounts-below-it-later", "dir", false},
 }
 
 type fsReport struct {
@@ -74,7 +77,7 @@ type c05entry struct {
 	source string
 }
 
-var c05nosuidDir string
+var c05nosuidDir, c05sharedDir string
 
 func c05setup() error {
 	// a mount with nosuid,noexec,nodev to take bind sources from (this process lives in a private mount namespace)
@@ -83,6 +86,15 @@ func c05setup() error {
 		return fmt.Errorf("mount nosuid tmpfs: %v", err)
 	}
 	c05nosuidDir = d
+	// a mount with shared propagation (everything else in this private namespace is private)
+	sh := tmpDir("c05shared")
+	if err := syscall.Mount("tmpfs", sh, "tmpfs", 0, ""); err != nil {
+		return fmt.Errorf("mount shared tmpfs: %v", err)
+	}
+	if err := syscall.Mount("", sh, "", syscall.MS_SHARED, ""); err != nil {
+		return fmt.Errorf("make shared: %v", err)
+	}
+	c05sharedDir = sh
 	return nil
 }
 
@@ -103,7 +115,7 @@ func init() {
 		}
 		spec := &mc.Spec{
 			Level: "exploration",
-			Rule: "every mount table of ≤ maxLen entries over 12 entry classes (bind ro/rw of directories and files, tmpfs, proc ro/rw, nested target, missing source with FilterNotExist, read-only bind whose source lies on a nosuid/noexec/nodev mount, read-only binds written by hand with only MS_BIND|MS_RDONLY) × both implementations of the mount sequence (raw in-child via the namespace runner, in-container; the container also with a symlink and with masked file/directory paths, named directly or through a configured symbolic link); " +
+			Rule: "every mount table of ≤ maxLen entries over 15 entry classes (bind ro/rw of directories and files, tmpfs, proc ro/rw, nested target, missing source with FilterNotExist, read-only bind whose source lies on a nosuid/noexec/nodev mount, read-only binds written by hand with only MS_BIND|MS_RDONLY, read-only binds onto a symbolic link planted inside a writable bind, a read-only bind whose source lies on a host mount with shared propagation below which the host mounts another file system once the sandbox is set up) × both implementations of the mount sequence (raw in-child via the namespace runner, in-container; the container also with a symlink and with masked file/directory paths, named directly or through a configured symbolic link); " +
 				"a probe inside reports the root listing, read-only flags and the outcome of create / mkdir / open-for-write / truncate / chmod / rename / unlink on the root and in every mount, '..' from the root, the old root, and seven escape routes to a host canary file; the host side reads /proc/<pid>/mountinfo of the sandboxed process. Oracle: reference model of the table. " +
 				"non-trivial: the table is not empty; distinct = (implementation, table, observations)",
 			Bound:       map[string]any{"max_entries": maxLen, "escape_routes": 7},
@@ -159,6 +171,7 @@ func c05run(x *mc.X, impl string, classes []c05class) {
 	var entries []c05entry
 	var names []string
 	plantedLink := false
+	var lateMounts, lateTargets []string
 	for i, c := range classes {
 		names = append(names, c.name)
 		e := c05entry{class: c, target: fmt.Sprintf("t%d", i)}
@@ -189,6 +202,13 @@ func c05run(x *mc.X, impl string, classes []c05class) {
 			mkSourceDir(src)
 			defer os.RemoveAll(src)
 			b.WithBind(src, e.target, true)
+		case "bind-ro-dir-from-shared-mount+host-mounts-below-it-later":
+			src = filepath.Join(c05sharedDir, fmt.Sprintf("s-%s-%d", filepath.Base(base), i))
+			mkSourceDir(src)
+			defer os.RemoveAll(src)
+			b.WithBind(src, e.target, true)
+			lateMounts = append(lateMounts, filepath.Join(src, "sub"))
+			lateTargets = append(lateTargets, "/"+e.target+"/sub")
 		case "hand-built-ro-bind":
 			mkSourceDir(src)
 			b.WithMount(mount.Mount{Source: src, Target: e.target, Flags: syscall.MS_BIND | syscall.MS_RDONLY})
@@ -233,7 +253,7 @@ func c05run(x *mc.X, impl string, classes []c05class) {
 			b.WithBind("/dev/null", "dev/null", false) // file masks are bind mounts of the container's /dev/null
 		}
 		for _, e := range entries {
-			if e.class.kind == "dir" && maskFile == "" {
+			if e.class.kind == "dir" && maskFile == "" && !strings.Contains(e.class.name, "host-mounts-below") {
 				maskFile, maskDir = e.path+"/maskme", e.path+"/sub"
 			}
 		}
@@ -249,10 +269,35 @@ func c05run(x *mc.X, impl string, classes []c05class) {
 	if maskFile != "" {
 		argv = append(argv, maskFile, maskDir)
 	}
+	argv = append(argv, lateTargets...)
+	// the host's later mounts: done when the sandbox's own mount sequence is over (container: after Build; namespace
+	// runner: inside the callback), undone when the run is over
+	lateDone := false
+	doLate := func() {
+		if lateDone {
+			return
+		}
+		lateDone = true
+		for _, p := range lateMounts {
+			if err := syscall.Mount("tmpfs", p, "tmpfs", 0, ""); err != nil {
+				x.Failf("C05/harness", "late host mount on %s: %v", p, err)
+				continue
+			}
+			os.WriteFile(filepath.Join(p, "late-host-secret"), []byte("mounted by the host after the sandbox was set up"), 0666)
+		}
+	}
+	defer func() {
+		if lateDone {
+			for _, p := range lateMounts {
+				syscall.Unmount(p, syscall.MNT_DETACH)
+			}
+		}
+	}()
 	pr, pw, _ := os.Pipe()
 	defer pr.Close()
 	var mountinfo string
 	sync := func(pid int) error {
+		doLate()
 		bts, _ := os.ReadFile(fmt.Sprintf("/proc/%d/mountinfo", pid))
 		mountinfo = string(bts)
 		return nil
@@ -305,6 +350,7 @@ func c05run(x *mc.X, impl string, classes []c05class) {
 			x.Failf("C05/container/build-failed/"+strings.Join(names, "+"), "table %v: %v", names, err)
 			return
 		}
+		doLate()
 		p := execveParam(argv)
 		p.Files = []uintptr{devnull(), pw.Fd(), devnull()}
 		p.SyncFunc = sync
@@ -435,6 +481,17 @@ func c05run(x *mc.X, impl string, classes []c05class) {
 			}
 			if _, err := os.Stat(filepath.Join(e.source, "victim")); err != nil {
 				fail("host-source-modified/"+e.class.name, "a file of the read-only source of %s was removed", e.path)
+			}
+		}
+	}
+	for _, lt := range lateTargets {
+		t := rep.Targets[lt]
+		if l := rawList(t, "list"); fmt.Sprint(l) != "[secret]" {
+			fail("later-host-mount-visible", "%s lists %v after the host mounted a file system below the bind source; configured content: [secret]", lt, l)
+		}
+		for _, op := range []string{"create", "mkdir"} {
+			if rawInt(t, op) == 0 {
+				fail("later-host-mount-writable", "%s in %s (below a read-only bind) succeeded after the host mounted a file system there", op, lt)
 			}
 		}
 	}
